@@ -537,6 +537,16 @@ func TestC21(t *testing.T) {
 			switch r.Intn(6) {
 			case 0, 1:
 				op.Includes = hostileIncludes(r, topo)
+				// an include list wins over everything else in the filter: exclude lists that overlap it (partly, fully,
+				// with further names), labels, the all flag
+				switch r.Intn(6) {
+				case 0:
+					op.Excludes = []string{op.Includes[r.Intn(len(op.Includes))]}
+				case 1:
+					op.Excludes = append(append([]string{}, op.Includes...), topo.Nodes[r.Intn(len(topo.Nodes))].Name)
+				case 2:
+					op.Labels = map[string]string{"zone": []string{"a", "b"}[r.Intn(2)]}
+				}
 			case 2:
 				op.Excludes = []string{topo.Nodes[r.Intn(len(topo.Nodes))].Name}
 				if r.Intn(2) == 0 {
@@ -570,6 +580,10 @@ func TestC21(t *testing.T) {
 func selectionClass(sc *selectCase) string {
 	op := sc.Op
 	switch {
+	case len(op.Includes) > 0 && len(op.Excludes) > 0:
+		return "includes-and-overlapping-excludes"
+	case len(op.Includes) > 0 && len(op.Labels) > 0:
+		return "includes-and-labels"
 	case len(op.Includes) > 0:
 		seen := map[string]bool{}
 		rep := false
